@@ -33,7 +33,8 @@ def run_batches(o, binary, batches, pid_tag):
             # key concretization for every other long program: 300-byte keys, non-UTF-8 keys
             n = int(name[-1])
             keys = [(b"\xff\xfe" if n % 4 == 1 else b"K" * 300) + b"%02d" % i for i in range(16)]
-        trace = dbrun.run_db_batch(binary, pid_tag + "-" + name, cases, gates=gates, seed=SEED, keys=keys)
+        disk = any(st.get("directio") for c in cases for st in c)
+        trace = dbrun.run_db_batch(binary, pid_tag + "-" + name, cases, gates=gates, seed=SEED, keys=keys, disk=disk)
         nok, bad, r = dbrun.judge_db(trace, o, "judge " + name)
         return trace, nok, bad, r
 
@@ -91,7 +92,7 @@ def run(tier):
     nlong = 24 if thorough else 6
     for i in range(nlong):
         prog = dbgen.random_session_program(rng, nkeys=rng.choice([6, 12, 16]), nsessions=rng.choice([3, 4, 6]) if i else 12,
-                                            ops_per_session=rng.choice([150, 400]) if i else 60, bg=None)
+                                            ops_per_session=rng.choice([150, 400]) if i else 60, bg=None, wal_modes=(i % 2 == 1))
         batches.append(("long-%d" % i, [prog], False))
     # one program that crosses > 10 generations before a restart (zero padded names must sort in recency order)
     many = [dbgen.open_step(50, 1 << 30, 1000, mem=1 << 30)]
@@ -109,6 +110,17 @@ def run(tier):
               {"op": "del", "k": 3}, {"op": "put", "k": 1, "v": u.next(), "pad": 0}, {"op": "rotate"}, {"op": "barrier"}, {"op": "getall", "k": 8}, {"op": "close"},
               dbgen.open_step(3, 1 << 30, 1000), {"op": "compact"}, {"op": "getall", "k": 8}, {"op": "close"}, dbgen.open_step(3, 1 << 30, 1000), {"op": "getall", "k": 8}, {"op": "close"}]
     batches.append(("manygens100", [many2], False))
+
+    # sessions that begin with deletes: tables (and whole compaction runs, the oldest table included) that hold nothing but tombstones
+    for bi, bg in enumerate([False, True]):
+        d = [dbgen.open_step(1, 1 << 30, rng.choice([0, 500, 1000]), mem=1 << 30, bg=bg, interval_us=300)]
+        for k in range(4):
+            d += [{"op": "del", "k": k}, {"op": "rotate"}]
+            if k % 2:
+                d += [{"op": "barrier"}] + ([] if bg else [{"op": "compact"}]) + [{"op": "getall", "k": 5}]
+        d += [{"op": "barrier"}, {"op": "sleep", "us": 20000}, {"op": "getall", "k": 5}, {"op": "put", "k": 1, "v": u.next(), "pad": 0}, {"op": "del", "k": 1}, {"op": "rotate"}, {"op": "barrier"}]
+        d += ([] if bg else [{"op": "compact"}]) + [{"op": "sleep", "us": 20000}, {"op": "getall", "k": 5}, {"op": "close"}, dbgen.open_step(1, 1 << 30, 1000), {"op": "getall", "k": 5}, {"op": "close"}]
+        batches.append(("delonly-%d" % bi, [d], False))
 
     kinds = run_batches(o, binary, batches, "C01")
     o.evaluations = sum(len(b[1]) for b in batches)
